@@ -14,8 +14,8 @@ Extraction "model.ml"
   Block.bc_current Block.bc_new Block.frame
   Trailer.open_meta Trailer.trailer_bytes Trailer.valid_trailer_suffixb
   Writer.w_run Writer.clamp_block_size Writer.compress_none
-  Reader.cstep Reader.cs_fresh Reader.load_block Reader.decompress_none
-  Spec.aspec Spec.range_spec Spec.prefix_spec Spec.sorted_strictb Spec.ceil_idx Spec.floor_idx Spec.find_idx
+  Reader.cstep Reader.cs_fresh Reader.load_block Reader.decompress_none Reader.mrun
+  Spec.aspec Spec.amrun Spec.range_spec Spec.prefix_spec Spec.sorted_strictb Spec.ceil_idx Spec.floor_idx Spec.find_idx
   Iter.range_next Iter.rev_range_next Iter.prefix_next Iter.rev_prefix_next Iter.collect Iter.iter_new Iter.advance_key
   Format.decode_file Format.block_entries Format.block_size_of Format.size_without_last Format.block_sorted Format.offsets_ok
   Merger.merge_run Merger.mf_concat Merger.mf_sortcat Merger.mf_fail_at Merger.merge_next Merger.init_heap
